@@ -1,7 +1,9 @@
 (* Bridge lemmas: every kernel extracted from /repo/src/bldfm/solver.py by the slice translator
    (Gen.GenSolver, regenerated on every run) equals the hand-written model kernel of
    Model/Solver.v, for ALL arguments, under the field laws.  Harmless algebraic rewrites of the
-   source keep these provable; a changed sign, coefficient, operand or index does not. *)
+   source keep these provable; a changed sign, coefficient, operand or index does not.
+   (The slices of ivp_solver's layer step and of the trapezoid update are in Bridge/StepBridge.v; the WHOLE body of
+   ivp_solver and the mean-mode block are bridged by Bridge/KernelBridge.v.) *)
 From Coq Require Import ZArith Field Ring.
 From BL Require Import Base.Ops Base.Laws Model.Solver.
 From Gen Require Import GenSolver.
@@ -20,39 +22,6 @@ Ltac lits := unfold half, sixth, two, cofQ; rewrite ?(ofZ_6 O L), ?(ofZ_3 O L), 
 Ltac nz1 := first [ assumption | apply (one_nz O L) | apply (two_nz O L) | apply (three_nz O L)
   | apply (three_nz' O L) ].
 Ltac nz := repeat split; repeat (apply (mul_nz O L)); try nz1.
-
-Lemma bridge_Ti Kx Ky u v lx ly : gen_Ti O Kx Ky u v lx ly = Tsym O Kx Ky u v lx ly.
-Proof. unfold gen_Ti, Tsym. ring. Qed.
-
-Lemma bridge_Kzinv Kz : gen_Kzinv O Kz = 1 / Kz.
-Proof. unfold gen_Kzinv. rewrite (L_ofZ_1 O L). reflexivity. Qed.
-
-Lemma bridge_dzi dz : gen_dzi O dz = dz.
-Proof. reflexivity. Qed.
-
-Lemma bridge_a Kzinv Ti dz : gen_a O Kzinv Ti dz = coef_a O Kzinv Ti dz.
-Proof. unfold gen_a, coef_a. lits. field. nz. Qed.
-
-Lemma bridge_b Kzinv Ti dz : gen_b O Kzinv Ti dz = coef_b O Kzinv Ti dz.
-Proof. unfold gen_b, coef_b. lits. field. nz. Qed.
-
-Lemma bridge_c Kzinv Ti dz : gen_c O Kzinv Ti dz = coef_c O Kzinv Ti dz.
-Proof. unfold gen_c, coef_c. lits. field. nz. Qed.
-
-Lemma bridge_d Kzinv Ti dz : gen_d O Kzinv Ti dz = coef_d O Kzinv Ti dz.
-Proof. unfold gen_d, coef_d. lits. field. nz. Qed.
-
-(* the (p, q) update of one layer is the model's step *)
-Lemma bridge_step lx ly (Lr : layer O) p q :
-  let Ti := gen_Ti O (l_Kx O Lr) (l_Ky O Lr) (l_u O Lr) (l_v O Lr) lx ly in
-  let Kzinv := gen_Kzinv O (l_Kz O Lr) in
-  let dzi := gen_dzi O (l_dz O Lr) in
-  (gen_p_next O (gen_a O Kzinv Ti dzi) (gen_b O Kzinv Ti dzi) p q,
-   gen_q_next O (gen_c O Kzinv Ti dzi) (gen_d O Kzinv Ti dzi) p q) = step O lx ly Lr (p, q).
-Proof.
-  cbv zeta. unfold step, gen_p_next, gen_q_next. cbn [fst snd].
-  rewrite bridge_a, bridge_b, bridge_c, bridge_d, bridge_Ti, bridge_Kzinv, bridge_dzi. reflexivity.
-Qed.
 
 Lemma bridge_dx xmx (nx : nat) : gen_dx O xmx (cofZ O (Z.of_nat nx)) = xmx / cofZ O (Z.of_nat nx).
 Proof. reflexivity. Qed.
@@ -79,10 +48,6 @@ Proof. reflexivity. Qed.
 Lemma bridge_comb_p al pm1 pm2 : gen_comb_p O al pm1 pm2 = al * pm1 + pm2.
 Proof. reflexivity. Qed.
 Lemma bridge_comb_q al qm1 qm2 : gen_comb_q O al qm1 qm2 = al * qm1 + qm2.
-Proof. reflexivity. Qed.
-
-Lemma bridge_mean_update p00 q00 dz Kz0 Kz1 :
-  gen_mean_update O p00 q00 dz Kz0 Kz1 = mean_update O p00 q00 dz Kz0 Kz1.
 Proof. reflexivity. Qed.
 
 (* analytic branch: h, Q = q0 * exp(-eig*h), P = Q * Kzinv / eig, mean = p000 - q00*Kzinv*h *)
